@@ -230,13 +230,16 @@ def _emit_headers(ch, m, groups, framing_lines):
     m.add('En', b'\n')
 
 
-def gen_request(ch, keepalive=None, allow_head=False, variants=True, max_extra=4):
-    """A well-formed request.  keepalive: True / False forces what the request asks for, None draws it."""
+def gen_request(ch, keepalive=None, allow_head=False, variants=True, max_extra=4, framing=None):
+    """A well-formed request.  keepalive: True / False forces what the request asks for, None draws it; framing forces the body kind."""
     m = Msg('request')
     version = '1.1' if ch.weighted([3, 1], 'version') == 0 else '1.0'
-    framing = ['none', 'clen', 'chunked'][ch.weighted([2, 2, 2], 'framing')]
-    if framing == 'chunked' and version == '1.0':
-        framing = 'clen'                      # chunked is an HTTP/1.1 transfer coding
+    if framing is None:
+        framing = ['none', 'clen', 'chunked'][ch.weighted([2, 2, 2], 'framing')]
+        if framing == 'chunked' and version == '1.0':
+            framing = 'clen'                  # chunked is an HTTP/1.1 transfer coding
+    elif framing == 'chunked':
+        version = '1.1'
     if framing == 'none':
         method = ch.choice(['GET', 'DELETE', 'OPTIONS', 'GET', 'HEAD'] if allow_head else ['GET', 'DELETE', 'OPTIONS'], 'method')
     else:
@@ -528,8 +531,6 @@ def parse_response(buf, eof=False, req_method='GET'):
     p, pos = r
     maj, mnr, code, reason = p.first
     p.first = ((int(maj), int(mnr)), int(code), reason.decode('latin1'))
-    if int(maj) != 1:
-        raise Bad('status line with major version %s' % maj.decode())
     p.framing, n = _framing(p, True, int(code), req_method)
     if p.framing == 'none':
         p.consumed = pos
@@ -593,7 +594,7 @@ class _FakeSock:
 
 def second_opinion(buf, n, req_method='GET'):
     """http.client.HTTPResponse over the same bytes: [(status, body)] of the first n responses (bodies by its own framing rules),
-    or a string describing why it gave up."""
+    a string describing why it gave up, or None if it has no opinion (unknown protocol version in a status line)."""
     out = []
     f = _FakeSock(bytes(buf))
     for _ in range(n):
@@ -601,6 +602,8 @@ def second_opinion(buf, n, req_method='GET'):
         try:
             r.begin()
             body = r.read()
+        except http.client.UnknownProtocol:
+            return None          # no opinion: http.client only knows HTTP/0.9 - 1.x status lines
         except (http.client.HTTPException, OSError, ValueError) as e:
             return 'http.client: %r after %d responses' % (e, len(out))
         out.append((r.status, body))
